@@ -263,9 +263,20 @@ def oracle(c, r):
                 yield ("curve-vs-polyline", what + ": Curve2::ray_intersections %r differs from the polyline search %r" % (cv["hits"], fast))
             if (cv["span"] is None) != (sp is None):
                 yield ("curve-vs-polyline", what + ": Curve2::try_create_spanning_ray disagrees with spanning_ray")
-            if cv["sp"] is not None and dn > 0 and len(cv["sp"]) == len(ts):
-                if any(abs(a - b * dn) > 1e-9 * scale * max(1.0, abs(b * dn)) for a, b in zip(cv["sp"], ts)):
-                    yield ("surface-point-intersection", what + ": distances %r along the unit normal vs parameters %r (|d| = %r)" % (cv["sp"], ts, dn))
+            if cv["sp"] is not None and dn > 0:
+                # the same search with the direction normalised (a rounded, hence slightly different line): every reported
+                # distance is a point of the polyline, and every crossing strictly inside an edge is reported; passes through
+                # vertices are at the mercy of the rounded direction and are not compared
+                for a in cv["sp"]:
+                    q = [o[0] + a * d[0] / dn, o[1] + a * d[1] / dn]
+                    if min(seg_dist(q, pts[i], pts[i + 1]) for i in range(len(pts) - 1)) > 1e-9 * scale * max(1.0, abs(a)):
+                        yield ("surface-point-intersection", what + ": distance %r along the unit normal gives %r, which is not on the polyline" % (a, q))
+                        break
+                for i in range(len(pts) - 1):
+                    t, st = edge_hit(o, d, pts[i], pts[i + 1])
+                    if st == "hit" and not any(abs(a - t * dn) <= 1e-8 + 1e-9 * scale * max(1.0, abs(t * dn)) for a in cv["sp"]):
+                        yield ("surface-point-intersection", what + ": edge %d is crossed at distance %r along the unit normal, reported distances %r" % (i, t * dn, cv["sp"]))
+                        break
     elif k == "c06.slab":
         # soundness of pruning: if the line meets the box (exactly), the test must say so
         from fractions import Fraction as F
